@@ -625,6 +625,20 @@ def gen_C06(rng, tier):
             return None if ok else 'hash-to-group handed out an invalid element'
         cases.append(Case(prog(['E=h2c:%s,%s' % (h32(a), h32(b2)), 'f=redec:E', 'eq:E,f', 'n=mul:E,%s' % h32(r - 1), 'm=add:n,E', 'isid:m', 'g=gen', 'eq:E,g', 'enc:E', 'enc:g']),
                           cls='hash-to-group:' + ('equal' if a == b2 else 'negated' if (a + b2) % q == 0 else 'zero' if b2 == 0 else 'independent'), oracle=orc))
+    # decoding entry points as constructors, both builds (the arkworks forms are also covered by `valid:` below): whatever is
+    # handed out must re-decode to itself, have order dividing r, and compare with the generator exactly as its encoding does
+    # (a degenerate (0:0:1:0) compares equal to everything; seed C06_r9: the minimal decoder accepting s = q-1)
+    for cls, b in near_misses(rng, valid_encodings(rng, 6)[:4] if tier == 'quick' else valid_encodings(rng, 20)):
+        for bld, forms_ in (('ark', DEC_FORMS_ARK[:3] if tier == 'quick' else DEC_FORMS_ARK), ('min', DEC_FORMS_MIN[:3] if tier == 'quick' else DEC_FORMS_MIN)):
+            for form in forms_:
+                def orc(out, bld_):
+                    f = out.split(' ')
+                    if out.startswith('err-') or out in ('panic',):
+                        return None if out.startswith('err-') else 'decoder panicked'
+                    ok = len(f) == 5 and f[0] == '1' and f[1] == '1' and ((f[2] == '1') == (f[3] == f[4]))
+                    return None if ok else 'decoder handed out an invalid element'
+                cases.append(Case(prog(['E=dec.%s:%s' % (form, b), 'f=redec:E', 'eq:E,f', 'n=mul:E,%s' % h32(r - 1), 'm=add:n,E', 'isid:m', 'g=gen', 'eq:E,g', 'enc:E', 'enc:g']),
+                                  builds=(bld,), cls='decode-constructor:%s:%s' % (bld, cls), oracle=orc))
     # conversions preserve validity
     encs = valid_encodings(rng, 8)
     pg = ProgGen(rng, encs)
